@@ -697,6 +697,67 @@ func Servers(u *Universe, cases []GlobCase, par int, st *GlobStats) ([]Mismatch,
 					o.err = fmt.Errorf("case %d pattern %q: %v", ci, p, err)
 					continue
 				}
+				// two MATCH clauses: an item is kept iff it matches one of them (as coded; the statement is
+				// silent), so the result must be the union of the two match sets TLC computed - whatever
+				// range shortcut the pair of patterns triggers, in either order
+				if cj := (ci*7 + 3) % len(cases); cj != ci && b2s(cases[cj].P) != "" {
+					c2 := &cases[cj]
+					p2 := b2s(c2.P)
+					in := map[string]bool{}
+					for _, i := range c.M {
+						in[strs[i-1]] = true
+					}
+					for _, i := range c2.M {
+						in[strs[i-1]] = true
+					}
+					var asc []string
+					for _, s := range nonEmpty {
+						if in[s] {
+							asc = append(asc, s)
+						}
+					}
+					desc := make([]string, len(asc))
+					for i := range asc {
+						desc[len(asc)-1-i] = asc[i]
+					}
+					cc := *c
+					if c2.Cls == "ff-carry" || (c2.Cls != "plain" && c.Cls == "plain") {
+						cc.Cls = c2.Cls // the pair inherits the more special class of its two patterns
+					}
+					if c.Cls == "ff-carry" {
+						cc.Cls = "ff-carry"
+					}
+					r2 := &caseRun{ci: ci, c: &cc, p: p + " + " + p2, st: &o.st}
+					cmds := [][]string{
+						{"SCAN", idsKey, "MATCH", p, "MATCH", p2, "ASC", "LIMIT", bigLimit, "IDS"},
+						{"SCAN", idsKey, "MATCH", p2, "MATCH", p, "DESC", "LIMIT", bigLimit, "IDS"},
+						{"SCAN", idsKey, "MATCH", p, "MATCH", p2, "COUNT"},
+						{"SEARCH", valsKey, "MATCH", p, "MATCH", p2, "ASC", "LIMIT", bigLimit},
+					}
+					vals, err := g.pipeline(1, cmds)
+					if err != nil {
+						o.err = fmt.Errorf("case %d patterns %q %q: %v", ci, p, p2, err)
+						continue
+					}
+					o.st.ServerCmds += len(cmds)
+					if l, err := cursorList(vals[0]); err == nil {
+						r2.list("SCAN-2MATCH-ASC", l, asc)
+					} else {
+						r2.scalar("SCAN-2MATCH-ASC", vals[0], -1)
+					}
+					if l, err := cursorList(vals[1]); err == nil {
+						r2.list("SCAN-2MATCH-DESC", l, desc)
+					} else {
+						r2.scalar("SCAN-2MATCH-DESC", vals[1], -1)
+					}
+					r2.scalar("SCAN-2MATCH-COUNT", vals[2], len(asc))
+					if l, err := cursorValues(vals[3]); err == nil {
+						r2.list("SEARCH-2MATCH-ASC", l, asc)
+					} else {
+						r2.scalar("SEARCH-2MATCH-ASC", vals[3], -1)
+					}
+					r.mism = append(r.mism, r2.mism...)
+				}
 				o.mism = append(o.mism, r.mism...)
 			}
 			o.st.ServerCmds = g.cmds
